@@ -468,6 +468,16 @@ def c05(run):
     pk = accepted_inputs(run, *n)
     scen = vlib.with_do(pk, "uncompress", '"all_offsets":true,')
     scen, obs, bad, facts = transform_run(run, scen, "unc", "C05", "VIOLATION-C05")
+    # byte level: the recorded outputs against the transcription of the re-emission (spec/ObjectImpl.tla UncompressOut)
+    small = [o for o in obs if len(o) < 60000]
+    p2 = os.path.join(run.wd, "unc_small.ndjson")
+    with open(p2, "w") as f:
+        f.write("\n".join(small) + "\n")
+    diff, out2 = vlib.validate(p2, "Trace_ObjectImpl", "Trace_ObjectImpl_unc.cfg", run.wd, len(small), {"NOTE-IMPL"}, shards=4)
+    compared = sum(int(txt) for _, ln, txt in vlib.event_prints(out2, "FACT"))
+    run.cov["transcription_vs_code_output"] = {"compared_byte_for_byte": compared, "different": len(diff)}
+    if diff:
+        run.notes.append("note (not a violation by itself): on %d of %d recorded calls the bytes emitted by uncompress() differ from the TLA+ transcription" % (len(diff), compared))
     run.cov["distinct_nontrivial"] = facts.get("compressed", 0)
     run.cov["rule"] = "distinct accepted packets; non-trivial = the input contains at least one compression pointer"
     if facts.get("compressed", 0) < 100:
@@ -813,7 +823,7 @@ def c10(run):
 def object_impl_conformance(run, events):
     """byte-level: every recorded cursor sub-step and insertion against the object-level transcription
     (spec/ObjectImpl.tla: decompress-first, cursor translation, byte moves, offset shifts).  Notes only."""
-    sel = [l for l in events if '"op":"cursor"' in l[:4000] or '"op":"insert' in l[:4000]]
+    sel = [l for l in events if '"op":"cursor"' in l[:4000] or '"op":"insert' in l[:4000] or '"op":"recompute"' in l[:4000]]
     if quick(run):
         sel = sel[vlib.seed() % 3::3]
     if not sel:
